@@ -373,3 +373,9 @@ fn c_style_multiline_comment_processor(comment: &str) -> String {
 
     result
 }
+
+/// Verification hook: the shared `/* ... */` normaliser on an arbitrary string.
+#[cfg(feature = "verif_hooks")]
+pub fn verif_c_style_multiline(comment: &str) -> String {
+    c_style_multiline_comment_processor(comment)
+}
